@@ -13,7 +13,7 @@ use neurons::tensor::Tensor;
 pub fn meta(ctx: &Ctx) -> Meta {
     let e = max_epochs(ctx);
     Meta {
-        rule: format!("every validation-loss trajectory in {{rise,fall,equal}}^(E-1) for epoch budgets E in 1..{} x every tolerance T in 1..5, plus tolerances 6..12, 16, 20 with budgets T+1, T+2, T+4 on all trajectories with at most two non-rise events, with validation data (also with print frequencies 1, 2 and beyond the budget on a third of them, a quarter each after an earlier learn() call on the same network without / with validation data (which leaves the weights untouched), a third of them at a tiny scale: loss 2^-20 moving in steps of 2^-27, a third at a large offset: loss 2^20 moving by one unit in the last place per epoch, every trajectory without a fall also starting at a loss of exactly 0, half of the trajectories without an 'equal' step also with three validation samples around a loss of 2^20 whose recorded mean repeats while their sum rises (trajectory read back, not commanded), and every trajectory without an 'equal' step that stops early also with a second validation sample steered so that the validation ACCURACY reaches a strict new best exactly at the stopping epoch); strictly rising trajectories under epoch budgets of 1000, 65536, i32::MAX-1 and i32::MAX (must stop at epoch T+1; watchdog of 60 s); every E in 1..{} without; the unmodified learn() is driven through each of them and the commanded pattern is re-derived from the returned vector (only matching runs count). Oracle over what learn() returned: len(train)=n; len(val_loss)=len(val_acc)=n (0 and n=E without validation data); stop(e) := e>T and the last T recorded losses strictly increasing is false for every e<n; if n<E then stop(n). States = (epoch, pattern prefix) pairs visited; transitions = epochs run; non-trivial = trajectories with at least one rise", e, e),
+        rule: format!("every validation-loss trajectory in {{rise,fall,equal}}^(E-1) for epoch budgets E in 1..{} x every tolerance T in 1..5, plus tolerances 6..12, 16, 20 with budgets T+1, T+2, T+4 on all trajectories with at most two non-rise events, with validation data (also with print frequencies 1, 2 and beyond the budget on a third of them, a quarter each after an earlier learn() call on the same network without / with validation data (which leaves the weights untouched), a third of them at a tiny scale: loss 2^-20 moving in steps of 2^-27, a third at a large offset: loss 2^20 moving by one unit in the last place per epoch, every trajectory without a fall also starting at a loss of exactly 0, half of the trajectories without an 'equal' step also with three validation samples around a loss of 2^20 whose recorded mean repeats while their sum rises (trajectory read back, not commanded), every trajectory with an 'equal' step and half of the others also with one extra validation sample per epoch arranged so that the validation ACCURACY rises strictly at every epoch while the summed loss makes exactly the commanded steps, and every trajectory without an 'equal' step that stops early also with a second validation sample steered so that the validation ACCURACY reaches a strict new best exactly at the stopping epoch); strictly rising trajectories under epoch budgets of 1000, 65536, i32::MAX-1 and i32::MAX (must stop at epoch T+1; watchdog of 60 s); every E in 1..{} without; the unmodified learn() is driven through each of them and the commanded pattern is re-derived from the returned vector (only matching runs count). Oracle over what learn() returned: len(train)=n; len(val_loss)=len(val_acc)=n (0 and n=E without validation data); stop(e) := e>T and the last T recorded losses strictly increasing is false for every e<n; if n<E then stop(n). States = (epoch, pattern prefix) pairs visited; transitions = epochs run; non-trivial = trajectories with at least one rise", e, e),
         bound: format!("E <= {}, T <= 5; complete", e),
         exhaustive: true,
         assumptions: vec!["stop rule read as in the statement's anchor: the window of the last T recorded validation losses is strictly increasing (T-1 comparisons) and more than T epochs have run".into()],
@@ -54,10 +54,18 @@ pub fn check(case: &Kv, rep: &mut Report) {
     // step e -> e+1 (1-based e) has active coordinates i >= e ; delta = -lr * sum_{i>=e} a_i
     // choose A_e = sum_{i>=e} a_i = -c_e  (c = +1 rise, -1 fall, 0 equal)
     let c: Vec<i32> = pattern.iter().map(|p| match p { 'r' => 1, 'f' => -1, _ => 0 }).collect();
+    // "accrise": besides the steered sample, one validation sample per coordinate (the one-hot input of coordinate j with
+    // coordinate j's training target): it is predicted exactly from epoch j+1 on, so the validation ACCURACY rises strictly
+    // at every epoch (e of k+1 samples correct after epoch e), and its loss falls by lr per epoch until then. The steered
+    // sample compensates those falls (n_e samples still moving at step e), so that the SUM of the losses makes exactly the
+    // commanded step - in particular stays exactly equal on an 'equal' step while the accuracy rises. The stop rule is a
+    // predicate of the loss history alone.
+    let accrise = case.opt("scale") == Some("accrise");
+    let moving = |e: usize| -> i32 { if accrise { (epochs - e) as i32 } else { 0 } };
     let mut a = vec![0i32; k];
     for e in (1..epochs).rev() {
-        let a_next: i32 = if e + 1 < epochs { -c[e] } else { 0 }; // A_{e+1}
-        a[e] = -c[e - 1] - a_next;
+        let a_next: i32 = if e + 1 < epochs { -c[e] - moving(e + 1) } else { 0 }; // A_{e+1}
+        a[e] = -c[e - 1] - moving(e) - a_next;
     }
     // "acc": a second validation sample whose prediction meets its target exactly at epoch e* (the epoch at which the
     // stop rule first holds) and at no other epoch: the validation ACCURACY then reaches a strict new best at the very
@@ -119,7 +127,13 @@ pub fn check(case: &Kv, rep: &mut Report) {
     let xr: Vec<&Tensor> = xs.iter().collect();
     let tr: Vec<&Tensor> = ts.iter().collect();
     let blank = tensor(Dims::Flat(k), &vec![0.0; k]);
-    let (vx, vt) = if acc_at.is_some() {
+    let (vx, vt) = if accrise {
+        let mut vx = vec![&xv];
+        vx.extend(xs.iter());
+        let mut vt = vec![&tv];
+        vt.extend(ts.iter());
+        (vx, vt)
+    } else if acc_at.is_some() {
         (vec![&xv, &xv2], vec![&tv, &tv2])
     } else if thirds {
         (vec![&xv, &blank, &blank], vec![&tv, &tv, &tv])
@@ -263,6 +277,17 @@ pub fn check(case: &Kv, rep: &mut Report) {
         }
     }
     rep.count("trajectories_realised", 1);
+    if accrise {
+        if (1..n).all(|e| acc[e] > acc[e - 1]) {
+            if (1..n).any(|e| val[e] == val[e - 1]) {
+                rep.count("runs_with_an_equal_loss_step_under_a_strictly_rising_accuracy", 1);
+            }
+        } else {
+            rep.count("steering_mismatch", 1);
+            rep.violate("C13 steering failed (machinery)", format!("the validation accuracy should rise at every epoch: {:?}", acc), case);
+            return;
+        }
+    }
     if let Some(es) = acc_at {
         if es <= n && acc[es - 1] > 0.0 && acc[..es - 1].iter().all(|v| *v < acc[es - 1]) {
             rep.count("runs_whose_accuracy_peaks_at_the_stopping_epoch", 1);
@@ -330,6 +355,10 @@ pub fn cases(ctx: &Ctx) -> Vec<Kv> {
                             out.push(Kv::new().put("epochs", epochs).put("tol", tol).put("val", 1).put("pattern", &pat).put("estar", es));
                         }
                     }
+                }
+                // the validation accuracy rises strictly at EVERY epoch whatever the loss does (in particular while it stays equal)
+                if pat.contains('e') || (code + tol) % 2 == 1 {
+                    out.push(Kv::new().put("epochs", epochs).put("tol", tol).put("val", 1).put("pattern", &pat).put("scale", "accrise"));
                 }
                 // three validation samples around a loss of 2^20: the recorded mean repeats while the sum rises
                 if !pat.contains('e') && (code + tol) % 2 == 0 {
